@@ -131,6 +131,9 @@ func NewDriver(
 	}
 
 	d := &Driver{
+		// the logger given with options.WithLogger lives on the generic driver; without this
+		// the netconf driver's own messages went to a fresh instance with no loggers
+		Logger:        gd.Logger,
 		TransportType: gd.TransportType,
 		Transport:     gd.Transport,
 		Channel:       gd.Channel,
